@@ -378,6 +378,36 @@ def case_lifetime(case):
             out.append(("C04:decode-result-shared-with-caller:" + name,
                         "%s: after the caller edited the object decoded from %#x, decoding the same bits gives %r"
                         % (where, fv, describe(r2))))
+        # (c) the number given as another kind of int (an IntEnum member naming the installation's addresses, a bool,
+        #     an int subclass): same field on the wire, equal to the plain object and to what is read back
+        import enum
+        Named = enum.IntEnum("Named", {"A%d" % n1: n1, "B%d" % n2: n2})
+
+        class Tagged(int):
+            pass
+        for spelled in [Named(n1), Tagged(n1)] + ([bool(n1)] if n1 in (0, 1) else []):
+            o3 = cls(spelled)
+            f3 = frame.ForwardFrame(bits, (v | (1 << 16)) if bits == 24 else v)
+            o3.add_to_frame(f3)
+            r3 = address.from_frame(f3)
+            plain = cls(n1)
+            if describe(r3) != (name, n1) or not (o3 == plain and plain == o3 and r3 == o3 and o3 == r3) or (o3 != plain) or (r3 != o3):
+                out.append(("C04:int-like-number-not-equal:" + name, "%s(%r): reads back as %r; ==plain %r, plain== %r, "
+                            "==read-back %r, != plain %r" % (name, spelled, describe(r3), o3 == plain, plain == o3, o3 == r3, o3 != plain)))
+        # (d) one object written into one frame, the field overwritten by somebody else, the object written again
+        o4, other = cls(n1), cls(n2)
+        f4 = frame.ForwardFrame(bits, (v | (1 << 16)) if bits == 24 else v)
+        o4.add_to_frame(f4)
+        other.add_to_frame(f4)
+        o4.add_to_frame(f4)
+        if describe(address.from_frame(f4)) != (name, n1):
+            out.append(("C04:rewrite-into-same-frame-skipped:" + name, "%s: %s(%d) written, overwritten by %s(%d), written again: "
+                        "frame reads %r" % (where, name, n1, name, n2, describe(address.from_frame(f4)))))
+        f4[shift + 5:shift] = n2 if n2 < 64 else 0
+        o4.add_to_frame(f4)
+        if describe(address.from_frame(f4)) != (name, n1):
+            out.append(("C04:rewrite-into-same-frame-skipped:" + name, "%s: field changed by a slice write, object written again: "
+                        "frame reads %r" % (where, describe(address.from_frame(f4)))))
         fresh = cls(n1)
         if describe(fresh) != (name, n1) or not (fresh == r2):
             out.append(("C04:decode-result-shared-with-caller:" + name, "%s: %s(%d) now is %r" % (where, name, n1, describe(fresh))))
